@@ -281,31 +281,49 @@ async fn open_db(engine: &str, dir: &std::path::Path, k: usize) -> (Database, bo
 }
 
 fn run_ins(rt: &tokio::runtime::Runtime, l: &[Sexp], workdir: &str, k: usize) -> String {
+    let kind = l[0].as_atom().unwrap().to_string();
     let engine = l[1].as_atom().unwrap().to_string();
-    let decls = &l[2].as_list().unwrap()[1..];
-    let rows = &l[3].as_list().unwrap()[1..];
+    // ins: decls rows | inscols: decls cols rows | inssel: src decls rows
+    let (src_decls, decls, cols, rows): (Option<&[Sexp]>, &[Sexp], Option<&[Sexp]>, &[Sexp]) = match kind.as_str() {
+        "inscols" => (None, &l[2].as_list().unwrap()[1..], Some(&l[3].as_list().unwrap()[1..]), &l[4].as_list().unwrap()[1..]),
+        "inssel" => (Some(&l[2].as_list().unwrap()[1..]), &l[3].as_list().unwrap()[1..], None, &l[4].as_list().unwrap()[1..]),
+        _ => (None, &l[2].as_list().unwrap()[1..], None, &l[3].as_list().unwrap()[1..]),
+    };
+    let coldefs = |ds: &[Sexp]| -> String {
+        ds.iter()
+            .enumerate()
+            .map(|(i, d)| {
+                let d = d.as_list().unwrap();
+                let nn = match d[1].as_atom().unwrap() { "notnull" => " not null", "pk" => " primary key", _ => "" };
+                format!("c{i} {}{}", sql_ty(d[0].as_atom().unwrap()), nn)
+            })
+            .collect::<Vec<_>>()
+            .join(", ")
+    };
     let dir = std::path::Path::new(workdir).join(format!("db{k}"));
     let _ = std::fs::remove_dir_all(&dir);
     let r = catch(|| {
         rt.block_on(async {
             let (db, need_shutdown) = open_db(&engine, &dir, k).await;
-            let cols: Vec<String> = decls
-                .iter()
-                .enumerate()
-                .map(|(i, d)| {
-                    let d = d.as_list().unwrap();
-                    let nn = match d[1].as_atom().unwrap() { "notnull" => " not null", "pk" => " primary key", _ => "" };
-                    format!("c{i} {}{}", sql_ty(d[0].as_atom().unwrap()), nn)
-                })
-                .collect();
-            db.run(&format!("create table t({})", cols.join(", "))).await.map_err(|e| format!("create: {e}"))?;
+            db.run(&format!("create table t({})", coldefs(decls))).await.map_err(|e| format!("create: {e}"))?;
             let mut failed = 0;
+            let target = if let Some(sd) = src_decls {
+                db.run(&format!("create table s({})", coldefs(sd))).await.map_err(|e| format!("create s: {e}"))?;
+                "s".to_string()
+            } else if let Some(cs) = cols {
+                format!("t({})", cs.iter().map(|c| format!("c{}", c.as_atom().unwrap())).collect::<Vec<_>>().join(", "))
+            } else {
+                "t".to_string()
+            };
             for row in rows {
                 let vals: Vec<String> = row.as_list().unwrap().iter().map(|v| sql_val(v.as_atom().unwrap())).collect();
-                let sql = format!("insert into t values ({})", vals.join(", "));
+                let sql = format!("insert into {target} values ({})", vals.join(", "));
                 if db.run(&sql).await.is_err() {
                     failed += 1;
                 }
+            }
+            if src_decls.is_some() && db.run("insert into t select * from s").await.is_err() {
+                failed += 1000;
             }
             let out = db.run("select * from t").await.map_err(|e| format!("select: {e}"))?;
             let mut rows_out: Vec<String> = vec![];
@@ -496,6 +514,68 @@ fn gen_ins(r: &mut Rng) -> String {
     )
 }
 
+fn ins_val(r: &mut Rng, t: &str) -> String {
+    if r.chance(1, 5) {
+        return "null".to_string();
+    }
+    match t {
+        "BOOLEAN" => format!("b:{}", r.chance(1, 2)),
+        "STRING" => format!("s:{}", hex(r.pick(&["", "a", "12", "-5", "true", "xy", "70000"]).as_bytes())),
+        "BIGINT" => format!("i64:{}", r.pick(&[3000000000i64, 4294967296, 2147483648])),
+        _ => format!("i32:{}", r.pick(&[0i64, 1, 2, 5, 7, 100, 32767])),
+    }
+}
+
+fn gen_decls(r: &mut Rng, n: usize) -> Vec<(String, String)> {
+    (0..n)
+        .map(|_| {
+            let t = *r.pick(&["INT", "INT", "SMALLINT", "BIGINT", "BOOLEAN", "STRING"]);
+            let nn = *r.pick(&["null", "null", "notnull"]);
+            (t.to_string(), nn.to_string())
+        })
+        .collect()
+}
+
+/// `INSERT INTO t(subset of columns) VALUES (...)`
+fn gen_inscols(r: &mut Rng) -> String {
+    let n = 2 + r.below(3) as usize;
+    let decls = gen_decls(r, n);
+    let mut cols: Vec<usize> = (0..n).filter(|_| r.chance(1, 2)).collect();
+    if cols.is_empty() {
+        cols.push(0);
+    }
+    if r.chance(1, 3) {
+        cols.reverse();
+    }
+    let rows: Vec<String> = (0..1 + r.below(3))
+        .map(|_| format!("({})", cols.iter().map(|&c| { let t = decls[c].0.clone(); ins_val(r, &t) }).collect::<Vec<_>>().join(" ")))
+        .collect();
+    let d = decls.iter().map(|(t, n)| format!("({t} {n})")).collect::<Vec<_>>().join(" ");
+    let c = cols.iter().map(|c| c.to_string()).collect::<Vec<_>>().join(" ");
+    let rws = rows.join(" ");
+    format!("(inscols mem (decls {d}) (cols {c}) (rows {rws}))\n(inscols disk (decls {d}) (cols {c}) (rows {rws}))")
+}
+
+/// rows into `s`, then `INSERT INTO t SELECT * FROM s` (column types may differ: implicit casts)
+fn gen_inssel(r: &mut Rng) -> String {
+    let n = 1 + r.below(3) as usize;
+    let src = gen_decls(r, n);
+    let decls: Vec<(String, String)> = src
+        .iter()
+        .map(|(t, _)| {
+            let t2 = if r.chance(3, 5) { t.clone() } else { (*r.pick(&["INT", "SMALLINT", "BIGINT", "BOOLEAN", "STRING"])).to_string() };
+            (t2, (*r.pick(&["null", "null", "notnull"])).to_string())
+        })
+        .collect();
+    let rows: Vec<String> = (0..1 + r.below(4))
+        .map(|_| format!("({})", src.iter().map(|(t, _)| ins_val(r, t)).collect::<Vec<_>>().join(" ")))
+        .collect();
+    let s_ = src.iter().map(|(t, n)| format!("({t} {n})")).collect::<Vec<_>>().join(" ");
+    let d = decls.iter().map(|(t, n)| format!("({t} {n})")).collect::<Vec<_>>().join(" ");
+    let rws = rows.join(" ");
+    format!("(inssel mem (src {s_}) (decls {d}) (rows {rws}))\n(inssel disk (src {s_}) (decls {d}) (rows {rws}))")
+}
+
 fn gen_sql(r: &mut Rng) -> String {
     fn e(r: &mut Rng, ty: &str, depth: u32) -> String {
         let col = |ty: &str| match ty { "bool" => "b", "i16" => "s", "i32" => "i", "i64" => "l", "str" => "v", "f64" => "f", "dec" => "m", _ => "d" }.to_string();
@@ -574,7 +654,9 @@ fn main() {
                 let line = match r.below(20) {
                     0..=11 => { let d = 1 + r.below(4) as u32; format!("(type {})", gen_t(&mut r, d)) }
                     12..=14 => { let d = r.below(3) as u32; format!("(ptype {})", gen_p(&mut r, d)) }
-                    _ => gen_ins(&mut r),
+                    15 | 16 => gen_ins(&mut r),
+                    17 => gen_inscols(&mut r),
+                    _ => gen_inssel(&mut r),
                 };
                 out += &line;
                 out.push('\n');
@@ -605,7 +687,7 @@ fn main() {
                         let mut e = RecExpr::default();
                         match catch(|| { add_p(&l[1], &mut e); e }) { Ok(e) => static_type(&e), Err(p) => format!("harness-error {p}") }
                     }
-                    "ins" => {
+                    "ins" | "inscols" | "inssel" => {
                         let wd = args.get(3).cloned().or_else(|| std::env::var("C16_WORK").ok()).expect("workdir");
                         run_ins(&rt, l, &wd, k)
                     }
